@@ -249,10 +249,15 @@ pub fn walk_types<F: FnMut(&ast::Type)>(ast: &ast::Aidl, mut f: F) {
 }
 
 pub(crate) fn walk_types_mut<F: FnMut(&mut ast::Type)>(ast: &mut ast::Aidl, mut f: F) {
-    let mut visit_type_helper = move |type_: &mut ast::Type| {
+    fn visit_type_mut<F: FnMut(&mut ast::Type)>(type_: &mut ast::Type, f: &mut F) {
         f(type_);
-        type_.generic_types.iter_mut().for_each(&mut f);
-    };
+        type_
+            .generic_types
+            .iter_mut()
+            .for_each(|t| visit_type_mut(t, f));
+    }
+
+    let mut visit_type_helper = move |type_: &mut ast::Type| visit_type_mut(type_, &mut f);
 
     match ast.item {
         ast::Item::Interface(ref mut i) => {
